@@ -67,8 +67,8 @@ func leanStr(s string) string {
 			b.WriteString("\\\\")
 		case r == '\n':
 			b.WriteString("\\n")
-		case r < 32 || r > 126:
-			fmt.Fprintf(&b, "\\u{%x}", r)
+		case r < 32 || r == 127:
+			fmt.Fprintf(&b, "\\x%02x", r)
 		default:
 			b.WriteRune(r)
 		}
@@ -313,7 +313,14 @@ func main() {
 	repo := flag.String("repo", "/repo", "redka working tree")
 	ns := flag.String("ns", "Generated", "Lean namespace suffix (Generated | Expected)")
 	outPath := flag.String("out", "", "output file (stdout when empty)")
+	cmdsPath := flag.String("cmds", "", "second output: source of every command object (Cmds.lean); skipped when empty")
 	flag.Parse()
+	if *cmdsPath != "" {
+		if err := emitCmds(*repo, *ns, *cmdsPath); err != nil {
+			fmt.Fprintln(os.Stderr, "extract_wire: cmds:", err)
+			os.Exit(1)
+		}
+	}
 
 	cmdDir := filepath.Join(*repo, "internal", "command")
 	collectConsts("sqlx", parseDir(filepath.Join(*repo, "internal", "sqlx")))
